@@ -635,6 +635,20 @@ func validateRename(op *fstxn.FsTxn, inodes []*inode.Inode, fromfh fh.Fh, tofh f
 	return true
 }
 
+// Revalidation after re-locking two directories and the source in order,
+// when the target name did not exist.
+func validateRenameNoTarget(op *fstxn.FsTxn, dipfrom *inode.Inode, dipto *inode.Inode,
+	from *inode.Inode, fromfh fh.Fh, tofh fh.Fh,
+	fromn nfstypes.Filename3, ton nfstypes.Filename3) bool {
+	if dipfrom.Inum != fromfh.Ino || dipfrom.Gen != fromfh.Gen ||
+		dipto.Inum != tofh.Ino || dipto.Gen != tofh.Gen {
+		return false
+	}
+	frominum, _ := dir.LookupName(dipfrom, op, fromn)
+	toinum, _ := dir.LookupName(dipto, op, ton)
+	return from.Inum == frominum && toinum == common.NULLINUM
+}
+
 func (nfs *Nfs) NFSPROC3_RENAME(args nfstypes.RENAME3args) nfstypes.RENAME3res {
 	defer nfs.recordOp(nfstypes.NFSPROC3_RENAME, time.Now())
 	var reply nfstypes.RENAME3res
@@ -644,11 +658,13 @@ func (nfs *Nfs) NFSPROC3_RENAME(args nfstypes.RENAME3args) nfstypes.RENAME3res {
 	var inodes []*inode.Inode
 	var frominum common.Inum
 	var toinum common.Inum
+	var from *inode.Inode
 	var success bool = false
 	var done bool = false
 
 	for !success {
 		op = fstxn.Begin(nfs.fsstate)
+		from = nil
 		util.DPrintf(1, "NFS Rename %v\n", args)
 
 		toh := fh.MakeFh(args.To.Dir)
@@ -713,7 +729,6 @@ func (nfs *Nfs) NFSPROC3_RENAME(args nfstypes.RENAME3args) nfstypes.RENAME3res {
 		if toinum != common.NULLINUM {
 			// must lock 3 or 4 inodes in order
 			var to *inode.Inode
-			var from *inode.Inode
 			op.Abort()
 			op = fstxn.Begin(nfs.fsstate)
 			if dipto != dipfrom {
@@ -768,12 +783,42 @@ func (nfs *Nfs) NFSPROC3_RENAME(args nfstypes.RENAME3args) nfstypes.RENAME3res {
 			} else { // retry
 				op.Abort()
 			}
+		} else if dipto != dipfrom {
+			// The source may be a directory, whose ".." must follow it to
+			// the new parent: lock the source as well, in order.
+			op.Abort()
+			op = fstxn.Begin(nfs.fsstate)
+			inums := make([]common.Inum, 3)
+			inums[0] = dipfrom.Inum
+			inums[1] = dipto.Inum
+			inums[2] = frominum
+			inodes = lockInodes(op, inums)
+			if inodes == nil { // an inode disappeared; retry
+				continue
+			}
+			dipfrom = inodes[0]
+			dipto = inodes[1]
+			from = inodes[2]
+			if validateRenameNoTarget(op, dipfrom, dipto, from, fromh, toh,
+				args.From.Name, args.To.Name) {
+				success = true
+			} else { // retry
+				op.Abort()
+			}
 		} else {
 			success = true
 		}
 	}
 	if done {
 		return reply
+	}
+	if from != nil && from.Kind == nfstypes.NF3DIR && dipfrom != dipto {
+		// a directory moves to another parent: its ".." follows
+		ok0 := dir.RemName(from, op, "..") && dir.AddName(from, op, dipto.Inum, "..")
+		if !ok0 {
+			errRet(op, &reply.Status, nfstypes.NFS3ERR_IO)
+			return reply
+		}
 	}
 	ok := dir.RemName(dipfrom, op, args.From.Name)
 	if !ok {
